@@ -172,6 +172,10 @@ def scenarios(tier: str, fix: str = "") -> List[Dict[str, Any]]:
     for x in q10:
         x["q10"] = True
     S += q10
+    # three responses pending at once: one that has to wait for its virtual qubit, one behind it in the same queue, and one of
+    # another queue whose request expects a further pair
+    S.append(scenario("deferred-2-pair-keep-and-2-pair-keep-other-socket", 4, [0], [K("create", 1, 0, 2, [0, 1]), K("create", 1, 1, 2, [2, 3])], [],
+                      [("req", 0), ("req", 1), ("wait", 1), ("qfree", 0), ("wait", 0)], fix))
     if tier == "thorough":
         S.append(scenario("three-requests-3-2-1", 3, [], [K("create", 1, 0, 3, [0, 1, 2]), M("create", 1, 1, 2), M("recv", 1, 0, 1)],
                           [dict(remote=1, sock=0, type="M", n=1)],
